@@ -4,13 +4,17 @@ package main
 // recording pacer, a recording transport and the "ended or deadlocked" wait.
 
 import (
+	"fmt"
 	"io"
+	"os"
 	"net/http"
 	"strconv"
 	"strings"
 	"sync"
 	"sync/atomic"
 	"time"
+
+	"verifharness/internal/ev"
 )
 
 type paceRec struct {
@@ -101,13 +105,78 @@ func (t *recTransport) RoundTrip(req *http.Request) (*http.Response, error) {
 		Header: http.Header{}, Body: io.NopCloser(strings.NewReader("ok")), Request: req, ContentLength: nextFakeLength("ok")}, nil
 }
 
+// spinEnd records an attack that will never end because a goroutine spins inside vegeta. In a
+// child process it also ends the child at once, blob written: the spinning goroutine cannot be
+// stopped and would burn a processor under every later case (DESIGN 10.26).
+func spinEnd(run *ev.Run, sig, msg string, detail any) {
+	run.Violate(sig, msg, detail)
+	if isChildProcess {
+		fmt.Println(run.BlobLine())
+		os.Exit(0)
+	}
+}
+
+var isChildProcess bool
+
 type endState int
 
 const (
 	endClosed endState = iota
 	endDeadlock
 	endWatchdog
+	endSpinning
 )
+
+// awaitProgress, when set by the caller of awaitEnd (one attack at a time per process), counts the
+// observable events of the attack under way (pacer calls, targets drawn, requests entering the
+// transport or reaching the server, results received). With it awaitEnd can tell an attack that
+// will never end because a goroutine spins inside vegeta from one that is merely long: see
+// spinWatch.
+var awaitProgress func() int64
+
+// spinWatch decides "a goroutine spins inside vegeta": over at least 10 s AND at least 40 dumps (4000 sleep-and-poll rounds)
+// taken by this very process (so a process that got no processor time decides nothing) the
+// progress counter did not move, in every dump some goroutine was running or runnable inside
+// vegeta, and nothing else was on its way (no goroutine of the harness running, nothing asleep on
+// a timer). vegeta executes microseconds of code between two counted events.
+type spinWatch struct {
+	last    int64
+	since   time.Time
+	samples int
+	frames  string
+}
+
+func (w *spinWatch) observe(gs []gInfo, p int64) bool {
+	busyV, other, frames := false, false, ""
+	for _, g := range gs {
+		switch {
+		case g.State == "running" && !isVegetaG(g): // the caller
+		case parkedG(g) || g.State == "IO wait":
+		case (g.State == "running" || g.State == "runnable") && isVegetaG(g):
+			busyV = true
+			frames += g.Frames + "\n\n"
+		default:
+			other = true
+		}
+	}
+	if os.Getenv("VERIF_SPIN_TRACE") != "" {
+		fmt.Fprintf(os.Stderr, "SPIN-TRACE p=%d last=%d busyV=%v other=%v samples=%d\n", p, w.last, busyV, other, w.samples)
+		if other {
+			for _, g := range gs {
+				if !(g.State == "running" && !isVegetaG(g)) && !parkedG(g) && g.State != "IO wait" && !((g.State == "running" || g.State == "runnable") && isVegetaG(g)) {
+					fmt.Fprintf(os.Stderr, "SPIN-TRACE other: %s\n", tail(g.Frames, 600))
+				}
+			}
+		}
+	}
+	if w.since.IsZero() || p != w.last || !busyV || other {
+		w.last, w.since, w.samples = p, time.Now(), 0
+		return false
+	}
+	w.samples++
+	w.frames = frames
+	return w.samples >= 40 && time.Since(w.since) > 10*time.Second
+}
 
 // awaitEnd waits until done is closed. If instead every goroutine of the
 // process is parked (twice in a row), the attack can never end: deadlock. The
@@ -120,6 +189,7 @@ func awaitEnd(done <-chan struct{}, watchdog time.Duration) (endState, string) {
 // waiting for network input that only the parked goroutines could send) counted as parked.
 func awaitEndIgnoring(done <-chan struct{}, watchdog time.Duration, ignore func(gInfo) bool) (endState, string) {
 	deadline := time.Now().Add(watchdog)
+	var spin spinWatch
 	for polls := 0; ; polls++ {
 		select {
 		case <-done:
@@ -132,6 +202,14 @@ func awaitEndIgnoring(done <-chan struct{}, watchdog time.Duration, ignore func(
 		time.Sleep(300 * time.Microsecond)
 		if polls%100 != 99 {
 			continue
+		}
+		if awaitProgress != nil && spin.observe(goroutineDump(), awaitProgress()) {
+			select {
+			case <-done:
+				return endClosed, ""
+			default:
+				return endSpinning, spin.frames
+			}
 		}
 		quiet := func() ([]gInfo, bool) {
 			gs := goroutineDump()
